@@ -59,6 +59,11 @@ def classify_instability(lang, o1, o2):
             if all(("/*" in a or "//" in a) for a, b in d):
                 return "gap-before-comment"
             return "spacing-inside-line"
+        # which lines moved? a one-line macro body with braces that is re-broken over continuation lines is its own class
+        import difflib
+        moved = [ln[2:] for ln in difflib.ndiff(l1, l2) if ln[:2] in ("- ", "+ ")]
+        if moved and all(m.endswith("\\") or "#define" in m or "while (0)" in m or "while(0)" in m for m in moved):
+            return "line-breaks-in-macro-body"
         return "line-breaks"
     nb1 = [t for t in t1 if not (t[0] == "punct" and t[1] in ([123], [125]))]
     nb2 = [t for t in t2 if not (t[0] == "punct" and t[1] in ([123], [125]))]
